@@ -8,6 +8,16 @@ HOOK_COMMITS = subprocess.run(
 
 # id -> (built?, technique, level text, level note, design_ref)
 CHECKS = {
+ "C19": (True,
+   "protocol-model driver + shadow reference: a transliteration of main.ts drives the real JsInterpreter under catch_unwind (trap monitor) while a shadow core interpreter checks state, outputs and error text",
+   "Random page-event sequences (program file loaded at start-up, submitted lines / replies / commands, break requests, timer ticks) are handled the way main.ts handles them against the native build of the real adapter; every adapter call is guarded against panics (traps, incl. the adapter's own assertions and the unreachable state arm) and mirrored on a shadow abasic_core::Interpreter whose state, output records and error text must equal what the adapter exposes; NEW must behave like a fresh interpreter.",
+   "The TypeScript is not executed: the page model is tied to main.ts by source patterns read at run time (inconclusive if they disappear); native rlib build instead of the wasm artefact.",
+   "DESIGN.md §5 C19"),
+ "C20": (True,
+   "black-box monitoring of the real abasic-lsp child process over JSON-RPC: liveness, UTF-16 bounds oracle, equality with the in-process analyzer",
+   "Scripted sessions (initialize, didOpen/didChange over several URIs, semanticTokens/full, shutdown, exit) are run against the real server binary; after every notification a publishDiagnostics must arrive and the child must be alive; every range and decoded semantic token must lie inside the document measured in UTF-16 units, tokens ordered, non-overlapping and typed within the advertised legend; diagnostics and tokens must equal the in-process analyzer's results converted by an independent byte->UTF-16 model.",
+   "Debug build of the server on stdio; missing responses while the child is alive are inconclusive; no lone CR in documents.",
+   "DESIGN.md §5 C20"),
  "C05": (True,
    "contract monitor over analyzer executions (catch_unwind + well-formedness oracle on every diagnostic and token range), exhaustive over short sequences of line kinds",
    "SourceFileAnalyzer::analyze runs on every sequence of up to 3 lines from 22 line kinds over two line numbers (so every duplicate / emptied / untokenizable redefinition shape is present), on random structured files, arbitrary UTF-8 files and (partially typed) generated programs; every diagnostic must map to a range on the line it names, in bounds and on char boundaries, and per-line token ranges must be ordered and non-overlapping; panics are caught per file.",
